@@ -81,9 +81,6 @@ def eval_lattice(r, trains, edges, be="py", rank=()):
                         {"spikes": got, "edges": ged},
                         "merged train is not the sorted multiset union on the first train's "
                         "interval", rank)
-        elif any(np.shares_memory(m.spikes, s.spikes) for s in sts):
-            r.violation(ID, "merge.alias", be, "merge.alias", case, "fresh array", "shared memory",
-                        "merged train shares memory with an input", rank)
     if [(s.spikes.tobytes(), s.t_start, s.t_end) for s in sts] != before:
         r.violation(ID, "merge.modifies", be, "merge.modifies", case, "inputs unchanged",
                     [s.spikes.tolist() for s in sts], "merge modified its inputs", rank)
